@@ -74,7 +74,7 @@ var comps = []string{"a", "b"}
 
 func pickComp(r *kit.Rand) string {
 	if r.Chance(0.1) {
-		return kit.Pick(r, []string{"V1", "V01", "Gv"})
+		return kit.Pick(r, []string{"V1", "V01", "Gv", "Gw"})
 	}
 	return kit.Pick(r, comps)
 }
@@ -369,6 +369,9 @@ func mkName(s string) enc.Name {
 			n = append(n, enc.Component{Typ: enc.TypeVersionNameComponent, Val: []byte{0, 1}})
 		case "Gv":
 			n = append(n, enc.Component{Typ: enc.TypeGenericNameComponent, Val: []byte("v=1")})
+		case "Gw":
+			// a generic component whose value is the encoded form of V1 (type, length, 01)
+			n = append(n, enc.Component{Typ: enc.TypeGenericNameComponent, Val: []byte{byte(enc.TypeVersionNameComponent), 1, 1}})
 		default:
 			n = append(n, enc.NewStringComponent(enc.TypeGenericNameComponent, c))
 		}
